@@ -83,6 +83,8 @@ class Engine:
         self.stats = Stats()
         self.timeout_ms = self.opt.get('timeout_ms', 30000)
         self.branch_timeout_ms = self.opt.get('branch_timeout_ms', 1500)
+        self.inc_timeout_ms = self.opt.get('inc_timeout_ms', 4000)
+        self.uf_defs = []
         self.max_instrs = self.opt.get('max_instrs', 3000000)
         self.conc_cap = self.opt.get('conc_cap', 300)
         self.violations = []
@@ -503,14 +505,51 @@ class Engine:
         return vec
 
     def report_violation(self, tag, kind, detail=''):
-        r = self.check()
-        if r != z3.sat:
-            if r == z3.unknown:
-                self.inconclusive.append('unknown at violation %s' % tag)
-            return False
-        vec = self.model_vector(self.model())
+        """the current solver state (pc and negated assertion) is satisfiable: extract a counterexample.
+        Summarised functions with a known definition (crcstep) are expanded first, so that the vector
+        also violates the assertion under the real function and replays natively."""
+        model = None
+        if self.uf_defs:
+            asr = list(self.solver.assertions())
+            if any(has_uf(a) for a in asr):
+                s2 = z3.Solver()
+                s2.set('timeout', self.timeout_ms)
+                for a in asr:
+                    s2.add(z3.substitute_funs(a, *self.uf_defs))
+                t0 = time.time()
+                self.stats.queries += 1
+                r = s2.check()
+                self.stats.solver_s += time.time() - t0
+                if r == z3.unsat:
+                    # no counterexample under the real function: the assertion holds on this path for the
+                    # interpreted function (decided by the solver with the definition expanded)
+                    self.stats.uf_refined = getattr(self.stats, 'uf_refined', 0) + 1
+                    return None
+                if r == z3.sat:
+                    model = s2.model()
+                # unknown: fall through to the uninterpreted model (may not replay)
+        if model is None:
+            r = self.check()
+            if r != z3.sat:
+                if r == z3.unknown:
+                    self.inconclusive.append('unknown at violation %s' % tag)
+                return False
+            model = self.model()
+        vec = self.model_vector(model)
         self.violations.append(Violation(tag, kind, vec, list(self.trail), detail))
         return True
+
+    def oneshot(self, extra):
+        """one-shot bit-blasting query (full preprocessing), used when the incremental core gives up"""
+        s2 = z3.SolverFor('QF_UFBV')
+        s2.set('timeout', self.timeout_ms)
+        s2.add(self.solver.assertions())
+        s2.add(extra)
+        t0 = time.time()
+        self.stats.queries += 1
+        r = s2.check()
+        self.stats.solver_s += time.time() - t0
+        return r
 
     def assert_(self, cond, tag):
         st = self.stats
@@ -525,7 +564,13 @@ class Engine:
             self.report_violation(tag, 'assert', 'assertion is constant false on this path')
             raise PathAbort('assert false')
         ncond = z3.Not(cond)
+        self.solver.set('timeout', self.inc_timeout_ms)
         r = self.check(ncond)
+        self.solver.set('timeout', self.timeout_ms)
+        if r == z3.unknown:
+            r = self.oneshot(ncond)
+            if r == z3.sat:
+                r = self.check(ncond)  # need the model in the incremental solver
         if r == z3.unsat:
             st.discharged += 1
             if len(st.samples) < 6:
@@ -539,8 +584,10 @@ class Engine:
             return
         self.solver.push()
         self.solver.add(ncond)
-        self.report_violation(tag, 'assert', _abbrev(cond))
+        rv = self.report_violation(tag, 'assert', _abbrev(cond))
         self.solver.pop()
+        if rv is None:
+            st.discharged += 1
         self.add(cond)
         if self.check() == z3.unsat:
             raise PathAbort('assert always false')
